@@ -2,31 +2,60 @@
     connection (tunnel over RPC + net.Pipe; sideConn over a websocket).
 
     The data is abstracted away; what is left is which ends are closed and
-    which of the four blocked parties (the proxy's two copy loops, the
-    application's Read, the client's Read) have returned.  Every rule sets
-    flags and never clears one.  The justification of each rule from the Go
-    code is given next to it; the end-to-end harness observes the outcome of
-    each rule chain in every mode and direction.
+    which of the blocked parties (the proxy's two copy loops, the
+    application's pending Read and its later Reads, the client's pending Read
+    and its later Reads) have returned.  Every rule sets flags and never
+    clears one.  The justification of each rule from the Go code is given next
+    to it; the end-to-end harness observes the outcome of each rule chain in
+    every mode and direction, including Reads issued after the first end.
+
+    The system has one parameter, [policy]: what a copy loop of JoinConn does
+    when it returns.  The code closes both connections ([CloseBoth]: the
+    deferred closeAll in the `join` closure; regenerated from the source in
+    Gen/StreamConsts.v and checked in StreamGen.v).  The theorems need exactly
+    that: under [HalfClose] (only the end marker is passed on) a Read issued
+    after the first end is stranded, because sideConn.Read does not remember
+    the end marker (Sni/StreamProofs.v: later_read_blocks_while_open).
 
     Everything here is finite, so the theorems are proved by evaluating a
-    decision procedure over all 256 states. *)
-From Coq Require Import List Bool Arith Lia.
+    decision procedure over all 2048 states. *)
+From Coq Require Import List Bool Arith Lia String.
 Import ListNotations.
+
+Inductive policy :=
+| CloseBoth    (* join: defer func() { closeAll(); ... }() with closeAll = c1.Close(); c2.Close() *)
+| HalfClose.   (* a clean EOF is passed on with CloseWrite only; closeAll when both loops are done
+                  or when the destination cannot half-close (the front connection) *)
+
+(** The policy read off what the translator extracted from JoinConn: the
+    calls in the deferred function of the `join` closure and the calls made by
+    closeAll.  Anything but "closeAll unconditionally, closing both
+    connections" counts as the weaker policy, for which no theorem holds. *)
+Definition str_in (x : string) (l : list string) : bool := existsb (String.eqb x) l.
+
+Definition close_policy_of (join_defer closeall : list string) : policy :=
+  if str_in "closeAll/0" join_defer && str_in "c1.Close/0" closeall && str_in "c2.Close/0" closeall
+  then CloseBoth else HalfClose.
 
 Record cstate := mkC {
   cc : bool;   (* the client closed its end of the front connection *)
   ac : bool;   (* the endpoint application closed the accepted connection *)
   fp : bool;   (* the proxy closed the front connection (closeAll: c2.Close) *)
+  rt : bool;   (* the end marker reached the application's connection:
+                  side: the "EOF" text frame of CloseWrite; legacy: the pipe's client end closed *)
   rp : bool;   (* the proxy closed the dialled connection (closeAll: c1.Close):
                   legacy: tunnel.Close -> closeRequest -> handleClose closes the pipe's client end;
-                  side:   sideConn.Close -> CloseWrite sends the text frame, then the websocket is closed *)
+                  side:   sideConn.Close -> CloseWrite, then the websocket itself is closed *)
   g1 : bool;   (* io.Copy(remote, bc) has returned *)
   g2 : bool;   (* io.Copy(bc, remote) has returned *)
   ra : bool;   (* the application's pending Read has returned an end (EOF or error) *)
-  rc : bool    (* the client's pending Read has returned an end *)
+  ra2 : bool;  (* a Read the application issued after that has returned *)
+  rc : bool;   (* the client's pending Read has returned an end *)
+  rc2 : bool   (* a Read the client issued after that has returned *)
 }.
 
-Definition cinit : cstate := mkC false false false false false false false false.
+Definition cinit : cstate :=
+  mkC false false false false false false false false false false false.
 
 Inductive rule :=
 | EClientClose      (* environment *)
@@ -38,22 +67,27 @@ Inductive rule :=
                        or handleClose closed the pipe under the pending handleRead -> errRead reply;
                        side: text frame -> io.EOF, or the local websocket was closed -> NextReader error *)
 | G2WriteFails      (* bc.Write on a closed front connection *)
-| CloseAll          (* the first copy loop to return runs closeAll: c1.Close(); c2.Close() *)
-| AppReadEnds       (* legacy: the pipe's client end is closed -> the application's Read returns EOF;
-                       side: the text frame arrives -> io.EOF, later the closed websocket -> error;
-                       or the application closed the connection itself *)
-| ClientReadEnds.   (* the proxy closed the front connection -> the client's Read returns EOF;
-                       or the client closed the connection itself *)
+| CopyEnd           (* what the policy does once a copy loop has returned *)
+| AppReadEnds       (* the pending Read: the end marker arrives (side: text frame -> io.EOF; legacy: pipe
+                       closed -> io.EOF), or the connection is closed, or the application closed it itself *)
+| AppLaterReadEnds  (* a Read after the first end: side: sideConn.Read has forgotten the marker and calls
+                       NextReader again, which returns only when the websocket is closed;
+                       legacy: the closed pipe keeps returning EOF; or the application closed it itself *)
+| ClientReadEnds    (* the proxy closed the front connection -> EOF; or the client closed it itself *)
+| ClientLaterReadEnds. (* TCP: the end is sticky *)
 
 Definition all_rules : list rule :=
-  [EClientClose; EAppClose; G1ReadEnds; G1WriteFails; G2ReadEnds; G2WriteFails; CloseAll;
-   AppReadEnds; ClientReadEnds].
+  [EClientClose; EAppClose; G1ReadEnds; G1WriteFails; G2ReadEnds; G2WriteFails; CopyEnd;
+   AppReadEnds; AppLaterReadEnds; ClientReadEnds; ClientLaterReadEnds].
 
 (** Rules of the system itself (not the environment). *)
 Definition system_rules : list rule :=
-  [G1ReadEnds; G1WriteFails; G2ReadEnds; G2WriteFails; CloseAll; AppReadEnds; ClientReadEnds].
+  [G1ReadEnds; G1WriteFails; G2ReadEnds; G2WriteFails; CopyEnd; AppReadEnds; AppLaterReadEnds;
+   ClientReadEnds; ClientLaterReadEnds].
 
-Definition enabled (r : rule) (s : cstate) : bool :=
+Definition all_closed (s : cstate) : bool := fp s && rt s && rp s.
+
+Definition enabled (p : policy) (r : rule) (s : cstate) : bool :=
   match r with
   | EClientClose => negb (cc s)
   | EAppClose => negb (ac s)
@@ -61,109 +95,158 @@ Definition enabled (r : rule) (s : cstate) : bool :=
   | G1WriteFails => negb (g1 s) && (rp s || ac s)
   | G2ReadEnds => negb (g2 s) && (ac s || rp s)
   | G2WriteFails => negb (g2 s) && (fp s || cc s)
-  | CloseAll => (g1 s || g2 s) && negb (fp s && rp s)
-  | AppReadEnds => negb (ra s) && (rp s || ac s)
+  | CopyEnd =>
+      match p with
+      | CloseBoth => (g1 s || g2 s) && negb (all_closed s)
+      | HalfClose =>
+          (* client->application loop ended: CloseWrite on the dialled connection only;
+             the other loop ended (the front connection cannot half-close), or both: closeAll *)
+          (g1 s && negb (rt s)) || (g2 s && negb (all_closed s))
+      end
+  | AppReadEnds => negb (ra s) && (rt s || rp s || ac s)
+  | AppLaterReadEnds => ra s && negb (ra2 s) && (rp s || ac s)
   | ClientReadEnds => negb (rc s) && (fp s || cc s)
+  | ClientLaterReadEnds => rc s && negb (rc2 s) && (fp s || cc s)
   end.
 
-Definition fire (r : rule) (s : cstate) : cstate :=
+Definition set_closed (s : cstate) (f t p : bool) : cstate :=
+  mkC (cc s) (ac s) (fp s || f) (rt s || t) (rp s || p) (g1 s) (g2 s) (ra s) (ra2 s) (rc s) (rc2 s).
+
+Definition fire (p : policy) (r : rule) (s : cstate) : cstate :=
   match r with
-  | EClientClose => mkC true (ac s) (fp s) (rp s) (g1 s) (g2 s) (ra s) (rc s)
-  | EAppClose => mkC (cc s) true (fp s) (rp s) (g1 s) (g2 s) (ra s) (rc s)
-  | G1ReadEnds | G1WriteFails => mkC (cc s) (ac s) (fp s) (rp s) true (g2 s) (ra s) (rc s)
-  | G2ReadEnds | G2WriteFails => mkC (cc s) (ac s) (fp s) (rp s) (g1 s) true (ra s) (rc s)
-  | CloseAll => mkC (cc s) (ac s) true true (g1 s) (g2 s) (ra s) (rc s)
-  | AppReadEnds => mkC (cc s) (ac s) (fp s) (rp s) (g1 s) (g2 s) true (rc s)
-  | ClientReadEnds => mkC (cc s) (ac s) (fp s) (rp s) (g1 s) (g2 s) (ra s) true
+  | EClientClose => mkC true (ac s) (fp s) (rt s) (rp s) (g1 s) (g2 s) (ra s) (ra2 s) (rc s) (rc2 s)
+  | EAppClose => mkC (cc s) true (fp s) (rt s) (rp s) (g1 s) (g2 s) (ra s) (ra2 s) (rc s) (rc2 s)
+  | G1ReadEnds | G1WriteFails =>
+      mkC (cc s) (ac s) (fp s) (rt s) (rp s) true (g2 s) (ra s) (ra2 s) (rc s) (rc2 s)
+  | G2ReadEnds | G2WriteFails =>
+      mkC (cc s) (ac s) (fp s) (rt s) (rp s) (g1 s) true (ra s) (ra2 s) (rc s) (rc2 s)
+  | CopyEnd =>
+      match p with
+      | CloseBoth => set_closed s true true true
+      | HalfClose => if g2 s then set_closed s true true true else set_closed s false true false
+      end
+  | AppReadEnds => mkC (cc s) (ac s) (fp s) (rt s) (rp s) (g1 s) (g2 s) true (ra2 s) (rc s) (rc2 s)
+  | AppLaterReadEnds => mkC (cc s) (ac s) (fp s) (rt s) (rp s) (g1 s) (g2 s) (ra s) true (rc s) (rc2 s)
+  | ClientReadEnds => mkC (cc s) (ac s) (fp s) (rt s) (rp s) (g1 s) (g2 s) (ra s) (ra2 s) true (rc2 s)
+  | ClientLaterReadEnds => mkC (cc s) (ac s) (fp s) (rt s) (rp s) (g1 s) (g2 s) (ra s) (ra2 s) (rc s) true
   end.
 
 Definition b2n (b : bool) : nat := if b then 1 else 0.
 
 (** Number of flags set: grows with every step. *)
 Definition weight (s : cstate) : nat :=
-  b2n (cc s) + b2n (ac s) + b2n (fp s) + b2n (rp s) + b2n (g1 s) + b2n (g2 s) + b2n (ra s) + b2n (rc s).
+  b2n (cc s) + b2n (ac s) + b2n (fp s) + b2n (rt s) + b2n (rp s) + b2n (g1 s) + b2n (g2 s)
+  + b2n (ra s) + b2n (ra2 s) + b2n (rc s) + b2n (rc2 s).
 
-(** No rule of the system itself is enabled. *)
-Definition quiescent (s : cstate) : bool :=
-  forallb (fun r => negb (enabled r s)) system_rules.
+(** The rules that do not need anybody to write: a party that only reads
+    (an application waiting in Read, a copy loop waiting in Read) is released
+    by these alone.  The two write-failure rules can fire only if data is
+    being written after the close, which nothing obliges anybody to do. *)
+Definition read_rules : list rule :=
+  [G1ReadEnds; G2ReadEnds; CopyEnd; AppReadEnds; AppLaterReadEnds; ClientReadEnds; ClientLaterReadEnds].
 
-(** ** Every step makes progress *)
-Definition step_grows_b (s : cstate) : bool :=
-  forallb (fun r => if enabled r s then Nat.ltb (weight s) (weight (fire r s)) else true) all_rules.
+(** No rule is enabled that could fire without further writes. *)
+Definition quiescent (p : policy) (s : cstate) : bool :=
+  forallb (fun r => negb (enabled p r s)) read_rules.
 
-Lemma step_grows_all : forall a b c d e f g h, step_grows_b (mkC a b c d e f g h) = true.
-Proof. intros [] [] [] [] [] [] [] []; reflexivity. Qed.
+(** ** Every step makes progress (either policy) *)
+Definition step_grows_b (p : policy) (s : cstate) : bool :=
+  forallb (fun r => if enabled p r s then Nat.ltb (weight s) (weight (fire p r s)) else true) all_rules.
 
-Theorem step_grows r s : enabled r s = true -> weight s < weight (fire r s).
+Lemma step_grows_all : forall p a b c d e f g h i j k,
+  step_grows_b p (mkC a b c d e f g h i j k) = true.
+Proof. intros [] [] [] [] [] [] [] [] [] [] [] []; reflexivity. Qed.
+
+Theorem step_grows p r s : enabled p r s = true -> weight s < weight (fire p r s).
 Proof.
-  intros H. destruct s as [a b c d e f g h].
-  pose proof (step_grows_all a b c d e f g h) as G. unfold step_grows_b in G.
+  intros H. destruct s as [a b c d e f g h i j k].
+  pose proof (step_grows_all p a b c d e f g h i j k) as G. unfold step_grows_b in G.
   rewrite forallb_forall in G.
   assert (Hr : In r all_rules) by (destruct r; cbn; tauto).
   specialize (G r Hr). rewrite H in G. now apply Nat.ltb_lt.
 Qed.
 
-Theorem weight_bound s : weight s <= 8.
-Proof. destruct s as [[] [] [] [] [] [] [] []]; cbn; lia. Qed.
+Theorem weight_bound s : weight s <= 11.
+Proof. destruct s as [[] [] [] [] [] [] [] [] [] [] []]; cbn; lia. Qed.
 
-(** ** When nothing more can happen, both readers have been released *)
+(** ** Closing both connections: when nothing more can happen, every reader
+    has been released - the pending Reads and the later ones *)
+Definition all_released (s : cstate) : bool :=
+  ra s && ra2 s && rc s && rc2 s && g1 s && g2 s && fp s && rp s.
+
 Definition close_ends_reads_b (s : cstate) : bool :=
-  if quiescent s && (cc s || ac s) then ra s && rc s && g1 s && g2 s && fp s && rp s else true.
+  if quiescent CloseBoth s && (cc s || ac s) then all_released s else true.
 
-Lemma close_ends_reads_all : forall a b c d e f g h, close_ends_reads_b (mkC a b c d e f g h) = true.
-Proof. intros [] [] [] [] [] [] [] []; reflexivity. Qed.
+Lemma close_ends_reads_all : forall a b c d e f g h i j k,
+  close_ends_reads_b (mkC a b c d e f g h i j k) = true.
+Proof. intros [] [] [] [] [] [] [] [] [] [] []; reflexivity. Qed.
 
 (** In every state - reachable or not - in which one side has closed and no
-    rule of the system is enabled, the application's and the client's reads
-    have ended, both copy loops have returned and both connections are closed. *)
-Theorem close_ends_reads s :
-  quiescent s = true -> cc s = true \/ ac s = true ->
-  ra s = true /\ rc s = true /\ g1 s = true /\ g2 s = true /\ fp s = true /\ rp s = true.
+    rule of the system is enabled, the application's and the client's pending
+    and later Reads have returned, both copy loops have returned and both
+    connections are closed: provided a returning copy loop closes both.
+    (Quiescence is taken over [read_rules] only: nobody has to write.) *)
+Theorem close_ends_reads p s :
+  p = CloseBoth ->
+  quiescent p s = true -> cc s = true \/ ac s = true ->
+  ra s = true /\ ra2 s = true /\ rc s = true /\ rc2 s = true /\
+  g1 s = true /\ g2 s = true /\ fp s = true /\ rp s = true.
 Proof.
-  intros Hq Hc. destruct s as [a b c d e f g h].
-  pose proof (close_ends_reads_all a b c d e f g h) as G. unfold close_ends_reads_b in G.
+  intros -> Hq Hc. destruct s as [a b c d e f g h i j k].
+  pose proof (close_ends_reads_all a b c d e f g h i j k) as G. unfold close_ends_reads_b in G.
   rewrite Hq in G.
-  assert (Hc' : cc (mkC a b c d e f g h) || ac (mkC a b c d e f g h) = true)
+  assert (Hc' : cc (mkC a b c d e f g h i j k) || ac (mkC a b c d e f g h i j k) = true)
     by (destruct Hc as [-> | ->]; [reflexivity|apply orb_true_r]).
-  rewrite Hc' in G. cbn [andb] in G.
+  rewrite Hc' in G. cbn [andb] in G. unfold all_released in G.
   repeat (apply andb_true_iff in G as [G ?]). repeat split; assumption.
 Qed.
 
 (** ** Runs *)
-Fixpoint run_rules (s : cstate) (rs : list rule) : option cstate :=
+Fixpoint run_rules (p : policy) (s : cstate) (rs : list rule) : option cstate :=
   match rs with
   | [] => Some s
-  | r :: rest => if enabled r s then run_rules (fire r s) rest else None
+  | r :: rest => if enabled p r s then run_rules p (fire p r s) rest else None
   end.
 
-(** A run can take at most 8 steps from any state: after a close, every
-    execution reaches a quiescent state, and there the reads have ended. *)
-Theorem runs_are_short : forall rs s s',
-  run_rules s rs = Some s' -> weight s + length rs <= weight s'.
+Theorem runs_are_short p : forall rs s s',
+  run_rules p s rs = Some s' -> weight s + List.length rs <= weight s'.
 Proof.
-  induction rs as [|r rs IH]; intros s s'; cbn [run_rules length].
+  induction rs as [|r rs IH]; intros s s'; cbn [run_rules List.length].
   - intros [= ->]. lia.
-  - destruct (enabled r s) eqn:E; [|discriminate]. intros H.
-    specialize (IH _ _ H). pose proof (step_grows r s E). lia.
+  - destruct (enabled p r s) eqn:E; [|discriminate]. intros H.
+    specialize (IH _ _ H). pose proof (step_grows p r s E). lia.
 Qed.
 
-Corollary run_length_bound rs s s' : run_rules s rs = Some s' -> length rs <= 8.
-Proof. intros H. pose proof (runs_are_short rs s s' H). pose proof (weight_bound s'). lia. Qed.
+Corollary run_length_bound p rs s s' : run_rules p s rs = Some s' -> List.length rs <= 11.
+Proof. intros H. pose proof (runs_are_short p rs s s' H). pose proof (weight_bound s'). lia. Qed.
 
-(** A pending read is never stuck: while one side has closed and a reader
-    has not been released, some rule of the system is enabled. *)
+(** A Read is never stuck: while one side has closed and some reader has not
+    been released, some rule of the system is enabled. *)
 Theorem never_stuck s :
-  cc s = true \/ ac s = true -> ra s = false \/ rc s = false ->
-  exists r, In r system_rules /\ enabled r s = true.
+  cc s = true \/ ac s = true ->
+  ra s = false \/ ra2 s = false \/ rc s = false \/ rc2 s = false ->
+  exists r, In r read_rules /\ enabled CloseBoth r s = true.
 Proof.
-  intros Hc Hr. destruct (quiescent s) eqn:Q.
-  - destruct (close_ends_reads s Q Hc) as (Ha & Hcn & _). destruct Hr; congruence.
+  intros Hc Hr. destruct (quiescent CloseBoth s) eqn:Q.
+  - destruct (close_ends_reads CloseBoth s eq_refl Q Hc) as (H1 & H2 & H3 & H4 & _).
+    destruct Hr as [|[|[|]]]; congruence.
   - unfold quiescent in Q. apply not_true_iff_false in Q.
-    assert (E : existsb (fun r => enabled r s) system_rules = true).
-    { destruct (existsb (fun r => enabled r s) system_rules) eqn:X; [reflexivity|].
+    assert (E : existsb (fun r => enabled CloseBoth r s) read_rules = true).
+    { destruct (existsb (fun r => enabled CloseBoth r s) read_rules) eqn:X; [reflexivity|].
       exfalso. apply Q. apply forallb_forall. intros r Hin.
-      destruct (enabled r s) eqn:Y; [|reflexivity].
-      assert (existsb (fun r => enabled r s) system_rules = true)
+      destruct (enabled CloseBoth r s) eqn:Y; [|reflexivity].
+      assert (existsb (fun r => enabled CloseBoth r s) read_rules = true)
         by (apply existsb_exists; exists r; auto). congruence. }
     apply existsb_exists in E. destruct E as (r & Hin & He). eauto.
 Qed.
+
+(** ** The dependency made explicit: passing on only the end marker strands
+    the application's later Reads.  The client closes; the copy loop passes the
+    end marker on; the pending Read returns EOF; nothing else can happen unless
+    the application writes or closes; a later Read has not returned. *)
+Theorem half_close_strands_later_reads :
+  exists s,
+    run_rules HalfClose cinit [EClientClose; G1ReadEnds; CopyEnd; AppReadEnds; ClientReadEnds;
+                               ClientLaterReadEnds] = Some s /\
+    quiescent HalfClose s = true /\ cc s = true /\ ra s = true /\ ra2 s = false.
+Proof. eexists. repeat split; reflexivity. Qed.
